@@ -276,6 +276,9 @@ class Listener:
                         lazymsg('refused connection from {name} due to the state machine', name=connection.name()),
                         'network',
                     )
+                    # the refusal is a generator sending the NOTIFICATION and closing the connection: it has
+                    # to be run, or the refused connection stays open for as long as the remote end keeps it
+                    reactor.asynchronous.schedule(str(uuid.uuid1()), 'refusing incoming connection', denied)
                     break
                 log.debug(lazymsg('accepted connection from {name}', name=connection.name()), 'network')
                 break
@@ -321,6 +324,7 @@ class Listener:
                         lazymsg('refused connection from {name} due to the state machine', name=connection.name()),
                         'network',
                     )
+                    reactor.asynchronous.schedule(str(uuid.uuid1()), 'refusing incoming connection', denied)
                     return
 
                 reactor.register_peer(new_neighbor.name(), new_peer)
